@@ -209,6 +209,18 @@ def gen_movie(rng, tier, kind=None):
                 tr.append((tr[0][0] + rng.choice([-1, 0, 0, 1]), tr[0][1] + rng.choice([-1, 0, 0, 1])))
         pw = rng.choice([1.0, 1.0, 0.6])
         amps = rng.sample([110, 140, 170, 200, 230, 250], nb)
+        if rng.random() < 0.5:
+            # 'chase': two lost features a little more than search_range apart, the brighter one moves 2 px towards
+            # the dimmer one and so comes within its search_range: only the merged subnet (2*search_range) links them right
+            gap = int(sr) + 1
+            ax = rng.choice([0, 1])
+            sg = rng.choice([-1, 1])
+            A = c0
+            B = (c0[0] + sg * gap * (ax == 0), c0[1] + sg * gap * (ax == 1))
+            B1 = (B[0] - sg * 2 * (ax == 0), B[1] - sg * 2 * (ax == 1))
+            tracks = [[A] * nfr, [B] + [B1] * (nfr - 1)]
+            amps = sorted(amps[:2])
+            pw = 1.0
     else:
         noise_kind = rng.choice(['none', 'low', 'speckle']) if kind != 'noise' else rng.choice(['texture', 'speckle', 'low'])
         minmass = rng.choice([0, 0, 0, 300, None])
